@@ -1,6 +1,27 @@
 """Per-property configuration of ./check: theorem module, correspondence streams, oracles."""
 
+_CACHE_STREAM = {"name": "cache", "quick": 30000, "thorough": 400000, "thorough_seeds": 4, "stateful": True, "seq_start": "new"}
+
 PROPS = {
+    "C18": {
+        "streams": [_CACHE_STREAM],
+        "oracles": ["cache"],
+        "rule": "random operation sequences (20-220 ops after each `new`) over a small key universe built around the locus "
+                "(keys sharing exactly i bits with the locus, equal to it, longer and shorter than it), loci of 0/1/2/3/32 bytes, "
+                "capacity at the constructor's floor 8*len*min and a little above, zero and equal timestamps; a case is one "
+                "operation line, distinct by its text; after every line Count/Get/evicted/expired/full contents are compared",
+        "assumptions": ["Go map iteration order only influences which of several equally new entries bucket.evict removes; the "
+                        "model takes the implementation's reported victim and checks that it is admissible",
+                        "time.Time is modelled as Nat seconds with 0 = the zero time"],
+    },
+    "C19": {
+        "streams": [_CACHE_STREAM],
+        "oracles": ["cacheorder"],
+        "rule": "same operation sequences as C18; foreach/closest/closer lines use query keys that are pool keys, the locus, "
+                "prefixes, extensions, one-bit neighbours and random keys; sequences are compared up to permutation inside "
+                "runs of entries equidistant from the query",
+        "assumptions": ["slices.SortFunc yields some permutation sorted by the comparator (ties in any order)"],
+    },
     "C15": {
         "streams": [{"name": "mux", "quick": 6000, "thorough": 300000, "thorough_seeds": 3}],
         "oracles": ["mux"],
